@@ -165,6 +165,7 @@ func extractTimestamp
 func (*TumblingWindow).getWindowKey
   props C02 C01
   option pure
+  ensures windows-that-end-at-different-instants-have-different-keys-the-key-spells-the-end-to-the-nanosecond: result == fmt.Sprintf("%d", endTime.UnixNano())
 
 // every watermark the window receives is acted on: the intervals are checked against it, none is skipped
 func (*TumblingWindow).startEventTime$1
@@ -246,6 +247,7 @@ func (*TumblingWindow).Add
   acquires tw.mu
   modifies *
   observe late := IsEventTimeLate
+  before Now the-arrival-stamp-is-taken-under-the-lock-that-orders-the-buffer: wheld(tw.mu)
   ensures unplaceable-dropped: tw.config.TimeCharacteristic == "EventTime" && !second(extractTimestamp(data, tw.config.TsProp, tw.config.TimeUnit)) ==> tw.data == old(tw.data) && tw.currentSlot == old(tw.currentSlot) && tw.initialized == old(tw.initialized)
   ensures on-time-buffered: tw.config.TimeCharacteristic == "EventTime" && second(extractTimestamp(data, tw.config.TsProp, tw.config.TimeUnit)) && !$late ==> appended(tw.data, old(tw.data), extractTimestamp(data, tw.config.TsProp, tw.config.TimeUnit), data)
   ensures late-in-current-kept: tw.config.TimeCharacteristic == "EventTime" && second(extractTimestamp(data, tw.config.TsProp, tw.config.TimeUnit)) && $late && old(tw.initialized) && old(inSlot(tw.currentSlot, extractTimestamp(data, tw.config.TsProp, tw.config.TimeUnit))) ==> appended(tw.data, old(tw.data), extractTimestamp(data, tw.config.TsProp, tw.config.TimeUnit), data)
@@ -347,6 +349,7 @@ func (*SlidingWindow).dropLastRow
 func (*SlidingWindow).getWindowKey
   props C02 C08
   option pure
+  ensures the-key-spells-the-end-to-the-nanosecond: result == fmt.Sprintf("%d", endTime.UnixNano())
 
 func (*SlidingWindow).startEventTime$1
   props C08 C02
@@ -433,6 +436,7 @@ func (*SlidingWindow).Add
   props C08 C02
   acquires sw.mu
   modifies *
+  before Now the-arrival-stamp-is-taken-under-the-lock-that-orders-the-buffer: wheld(sw.mu)
   observe late := IsEventTimeLate
   ensures unplaceable-dropped: sw.config.TimeCharacteristic == "EventTime" && !second(extractTimestamp(data, sw.config.TsProp, sw.config.TimeUnit)) ==> sw.data == old(sw.data) && sw.currentSlot == old(sw.currentSlot) && sw.initialized == old(sw.initialized)
   ensures on-time-buffered: sw.config.TimeCharacteristic == "EventTime" && second(extractTimestamp(data, sw.config.TsProp, sw.config.TimeUnit)) && !$late ==> appended(sw.data, old(sw.data), extractTimestamp(data, sw.config.TsProp, sw.config.TimeUnit), data)
@@ -671,6 +675,13 @@ func newGroupState
   props C17 C04 C12
   atreturn every-output-and-trigger-aggregate-gets-its-accumulator: $done2 && $done3
   modifies pkgheaps(functions)
+  count news := New
+  observe acc := New
+  atreturn every-alias-gets-an-accumulator-of-its-own-none-is-shared: $news == len(outputSpecs) + howMany(arrayof(j, 0, triggerSpecs[j].prototype != nil), len(triggerSpecs))
+  loop 1 invariant $news == 0
+  loop 2 invariant $news == $i
+  loop 2 invariant the-accumulator-stored-for-an-alias-is-the-one-just-made-for-it: $i > 0 ==> gs.outputAggs[$s[$i - 1].alias] == $acc
+  loop 3 invariant $news == len(outputSpecs) + howMany(arrayof(j, 0, triggerSpecs[j].prototype != nil), $i)
   ensures starts-from-empty: fresh(result) && !result.hasData && fresh(result.keyValues) && fresh(result.outputAggs) && fresh(result.triggerAggs) && result.key == key
   loop 1 invariant fresh(gs) && fresh(gs.keyValues) && fresh(gs.outputAggs) && fresh(gs.triggerAggs) && !gs.hasData && gs.key == key
   loop 2 invariant fresh(gs) && fresh(gs.keyValues) && fresh(gs.outputAggs) && fresh(gs.triggerAggs) && !gs.hasData && gs.key == key
@@ -767,10 +778,12 @@ func (*GlobalWindow).Stop
   modifies *
   ensures true
 
+// a row offered to a running window is either handed to the worker or the window is being shut down: it is never
+// put aside because the worker is busy
 func (*GlobalWindow).Add
   props C17 C04 C12
   modifies *
-  ensures true
+  atreturn a-row-offered-to-a-running-window-reaches-the-worker-unless-the-window-is-shutting-down: ($selected == -2 && stopped) || $selected == 0 || $selected == 1
 
 
 func (*GlobalWindow).buildOutputSpecs
@@ -919,6 +932,7 @@ func (*SessionWindow).Add
   props C10 C02 C04
   acquires sw.mu
   modifies *
+  before Now the-arrival-stamp-is-taken-under-the-lock-that-orders-the-buffer: wheld(sw.mu)
   owns TimeSlot.End TimeSlot.Start
   observe late := IsEventTimeLate
   before extractSessionCompositeKey late-event-never-reaches-ingest: !$late
